@@ -36,6 +36,8 @@ Inductive kind :=
   | KActive   (* C15: naming of the active file contradicts the mode *)
   | KNoRot    (* C15: a rotated file exists although neither limit is set *)
   | KStray    (* C15: the directory holds a file that is neither base.ext, base-<stamp>.ext nor one the harness planted *)
+  | KStampOrder (* C15: a file that appeared later in the directory carries a stamp that is not larger *)
+  | KPruneOrder (* C15/C08: retention removed a file although an older-created rotated file is still there *)
   | KCrash    (* C08/C15: the directory left by SIGKILL is none of the model's crash points *)
   | KHyp.     (* informational, never reported: the readings fed do not satisfy clock_ok *)
 
@@ -141,14 +143,46 @@ Section Case.
     end.
 End Case.
 
+(* ---- the directory's own event log of a concurrent case (kernel order = order of the sink's critical sections):
+   (1, s) a name with stamp s appeared (created, or renamed to), (2, s) it was removed, (3, s) it is there at the end ---- *)
+Fixpoint stamps_increase (prev : option Z) (l : list (N * Z)) : bool :=
+  match l with
+  | [] => true
+  | (k, s) :: t =>
+      if N.eqb k 1 then (match prev with Some p => p <? s | None => true end) && stamps_increase (Some s) t
+      else stamps_increase prev t
+  end.
+(* retention may only ever remove the oldest-created rotated file that is still there: [live] in order of appearance *)
+Fixpoint prune_oldest_first (live : list Z) (l : list (N * Z)) : option (list Z) :=
+  match l with
+  | [] => Some live
+  | (k, s) :: t =>
+      if N.eqb k 1 then prune_oldest_first (live ++ [s]) t
+      else if N.eqb k 2 then
+        match live with
+        | h :: r => if h =? s then prune_oldest_first r t else None
+        | [] => None
+        end
+      else prune_oldest_first live t
+  end.
+Definition dirlog_check (l : list (N * Z)) : list kind :=
+  (if stamps_increase None l then [] else [KStampOrder]) ++
+  match prune_oldest_first [] l with
+  | None => [KPruneOrder]
+  | Some live =>
+      let finals := map snd (filter (fun e => N.eqb (fst e) 3) l) in
+      if eq_list Z.eqb (isort live) (isort finals) then [] else [KPruneOrder]
+  end.
+
 Record fcase := {
   c_id : N; c_cfg : cfg; c_fids : list N; c_dm : option N; c_k0 : Z;
   c_writers : N; c_counts : list (list N);
   c_model : bool;                         (* false: only the observation-only oracles are evaluated *)
+  c_dirlog : list (N * Z);
   c_steps : list (xop * option sobs)
 }.
 Definition mismatches (cs : list fcase) : list (N * (N * N * kind)) :=
-  flat_map (fun k => map (fun m => (c_id k, m))
+  flat_map (fun k => map (fun m => (c_id k, (0%N, 7%N, m))) (dirlog_check (c_dirlog k)) ++ map (fun m => (c_id k, m))
      (run_case (c_cfg k) (c_writers k) (c_counts k) (c_dm k) (negb (c_model k)) false false (w_init (c_fids k) (c_dm k) (c_k0 k)) [] 0%N 0%N (c_steps k))) cs.
 
 (* ---- coverage vector: which branches of the model the cases reached (for the evidence) ---- *)
